@@ -2153,6 +2153,233 @@ example : Wire.wf (.msg [.i32, .bytes, .rep .i64, .opt (.msg [.u64, .bool]), .re
 example : (Wire.decode [.i64] (Wire.encMsg 1 [.i64] [.int (2 ^ 62)])).map (Wire.Val.sames · [.int (-2 ^ 62)]) = some true := by
   decide
 
+/-! ### round 5: the receive loop refines a parser of the byte stream; causality -/
+
+/-- **the specification of the receive loop: a parser of the byte stream.**  No segments, no reads:
+take a header, test it against the limit, take the body, classify it, go on with the rest. -/
+def specLoop {V : Type} (cd : Codec V) (max : Nat) : Nat → List Nat → List (Event V)
+  | 0, _ => []
+  | fuel + 1, bs =>
+    match frameSpec max bs with
+    | (.error e, _) => [.closed e]
+    | (.ok b, rest) => classify cd b :: specLoop cd max fuel rest
+
+/-- **refinement**: `handleConn` over `receiveRawProd` over `conn.Read`, fed by *any* list of segments,
+computes the byte-stream parser on their concatenation — for every stream, well-formed or not. -/
+theorem c03_loop_refines_parser {V : Type} (cd : Codec V) (max fuel : Nat) (c : Segs) :
+    recvLoop cd max fuel c = specLoop cd max fuel c.flatten := by
+  induction fuel generalizing c with
+  | zero => rfl
+  | succ fuel ih =>
+    obtain ⟨r, c', hr⟩ := recvFrame_pair max c
+    have hs := recvFrame_spec max c
+    rw [hr] at hs
+    cases r with
+    | error e =>
+      rw [recvLoop_err cd max fuel c c' e hr]
+      have h1 : (frameSpec max c.flatten).1 = .error e := hs.1.symm
+      unfold specLoop
+      split
+      · rename_i e' x heq
+        rw [heq] at h1
+        cases h1; rfl
+      · rename_i b rest heq
+        rw [heq] at h1
+        cases h1
+    | ok b =>
+      rw [recvLoop_ok cd max fuel c c' b hr]
+      have h1 : (frameSpec max c.flatten).1 = .ok b := hs.1.symm
+      have h2 := hs.2 b rfl
+      unfold specLoop
+      split
+      · rename_i e' x heq
+        rw [heq] at h1
+        cases h1
+      · rename_i b' rest heq
+        rw [heq] at h1 h2
+        cases h1
+        simp only at h2
+        rw [ih c', h2]
+
+/-- what a cut of the stream does to the next frame: the cut stream's frame is EOF, or it is the
+uncut stream's answer with the correspondingly cut rest -/
+theorem frameSpec_take (max : Nat) (bs : List Nat) (k : Nat) :
+    (frameSpec max (bs.take k)).1 = .error .eof ∨
+    ((frameSpec max (bs.take k)).1 = (frameSpec max bs).1 ∧
+      ∀ b, (frameSpec max bs).1 = .ok b →
+        (frameSpec max (bs.take k)).2 = (frameSpec max bs).2.take (k - 4 - b.length)) := by
+  unfold frameSpec
+  by_cases h1 : (bs.take k).length < 4
+  · left; rw [if_pos h1]
+  · have hk : 4 ≤ k := by rw [List.length_take] at h1; omega
+    have hl : 4 ≤ bs.length := by rw [List.length_take] at h1; omega
+    have ht : (bs.take k).take 4 = bs.take 4 := by
+      rw [List.take_take]; congr 1; omega
+    have hd : (bs.take k).drop 4 = (bs.drop 4).take (k - 4) := by rw [List.drop_take]
+    rw [if_neg h1, if_neg (by omega : ¬ bs.length < 4), ht, hd]
+    by_cases h2 : unbe32 (bs.take 4) > max
+    · right; rw [if_pos h2, if_pos h2]
+      exact ⟨rfl, fun b hb => by cases hb⟩
+    · rw [if_neg h2, if_neg h2]
+      by_cases h3 : ((bs.drop 4).take (k - 4)).length < unbe32 (bs.take 4)
+      · left; rw [if_pos h3]
+      · right
+        have h3' : ¬ (bs.drop 4).length < unbe32 (bs.take 4) := by
+          rw [List.length_take] at h3; omega
+        have hn : unbe32 (bs.take 4) ≤ k - 4 := by rw [List.length_take] at h3; omega
+        rw [if_neg h3, if_neg h3']
+        refine ⟨?_, ?_⟩
+        · simp only [List.take_take]
+          congr 2; omega
+        · intro b hb
+          simp only at hb
+          cases hb
+          simp only [List.drop_take, List.length_take]
+          congr 1
+          omega
+
+/-- **causality (prefix monotonicity), for every byte stream**: cut a stream anywhere — inside a
+header, inside a body, between frames, in the middle of garbage — and what the loop does up to its
+final close is a prefix of what it does on the uncut stream.  Nothing that arrives later changes,
+reorders or withdraws what was already delivered or refused. -/
+theorem specLoop_take {V : Type} (cd : Codec V) (max fuel : Nat) (bs : List Nat) (k : Nat) :
+    (specLoop cd max fuel (bs.take k)).dropLast <+: specLoop cd max fuel bs := by
+  induction fuel generalizing bs k with
+  | zero => simp [specLoop]
+  | succ fuel ih =>
+    rcases frameSpec_take max bs k with h | ⟨h1, h2⟩
+    · have : specLoop cd max (fuel + 1) (bs.take k) = [.closed .eof] := by
+        unfold specLoop
+        split
+        · rename_i e x heq; rw [heq] at h; cases h; rfl
+        · rename_i b rest heq; rw [heq] at h; cases h
+      rw [this]; simp
+    · obtain ⟨r, rest, hr⟩ : ∃ r rest, frameSpec max bs = (r, rest) := ⟨_, _, rfl⟩
+      obtain ⟨r', rest', hr'⟩ : ∃ r rest, frameSpec max (bs.take k) = (r, rest) := ⟨_, _, rfl⟩
+      rw [hr, hr'] at h1
+      simp only at h1
+      subst h1
+      cases r' with
+      | error e =>
+        have e1 : specLoop cd max (fuel + 1) (bs.take k) = [.closed e] := by
+          unfold specLoop; rw [hr']
+        rw [e1]; simp
+      | ok b =>
+        have e1 : specLoop cd max (fuel + 1) (bs.take k) = classify cd b :: specLoop cd max fuel rest' := by
+          conv => lhs; unfold specLoop
+          rw [hr']
+        have e2 : specLoop cd max (fuel + 1) bs = classify cd b :: specLoop cd max fuel rest := by
+          conv => lhs; unfold specLoop
+          rw [hr]
+        have hrest : rest' = rest.take (k - 4 - b.length) := by
+          have := h2 b (by rw [hr])
+          rw [hr, hr'] at this
+          exact this
+        rw [e1, e2, hrest]
+        have := ih rest (k - 4 - b.length)
+        cases hl : specLoop cd max fuel (rest.take (k - 4 - b.length)) with
+        | nil => simp
+        | cons x l =>
+          rw [hl] at this
+          rw [List.dropLast_cons_of_ne_nil (by simp)]
+          exact List.cons_prefix_cons.mpr ⟨rfl, this⟩
+
+theorem c03_prefix_monotone {V : Type} (cd : Codec V) (max fuel : Nat) (c d : Segs) (k : Nat)
+    (h : d.flatten = c.flatten.take k) :
+    (recvLoop cd max fuel d).dropLast <+: recvLoop cd max fuel c := by
+  rw [c03_loop_refines_parser, c03_loop_refines_parser, h]
+  exact specLoop_take cd max fuel c.flatten k
+
+theorem frameSpec_progress (max : Nat) (bs : List Nat) (b rest : List Nat)
+    (h : frameSpec max bs = (.ok b, rest)) : rest.length + 4 ≤ bs.length := by
+  unfold frameSpec at h
+  split at h
+  · cases h
+  · split at h
+    · cases h
+    · split at h
+      · cases h
+      · rename_i h1 _ _
+        cases h
+        simp only [List.length_drop]
+        omega
+
+/-- more fuel than bytes in flight changes nothing (every turn that goes on consumes a header) -/
+theorem specLoop_fuel {V : Type} (cd : Codec V) (max fuel m : Nat) (bs : List Nat) (h : bs.length < fuel) :
+    specLoop cd max (fuel + m) bs = specLoop cd max fuel bs := by
+  induction fuel generalizing bs with
+  | zero => omega
+  | succ fuel ih =>
+    have e : fuel + 1 + m = (fuel + m) + 1 := by omega
+    rw [e]
+    unfold specLoop
+    obtain ⟨r, rest, hr⟩ : ∃ r rest, frameSpec max bs = (r, rest) := ⟨_, _, rfl⟩
+    rw [hr]
+    cases r with
+    | error e => rfl
+    | ok b =>
+      have := frameSpec_progress max bs b rest hr
+      simp only
+      rw [ih rest (by omega)]
+
+/-- the values handed to the dispatcher, in order -/
+def delivered {V : Type} : List (Event V) → List V
+  | [] => []
+  | .deliver v :: l => v :: delivered l
+  | _ :: l => delivered l
+
+theorem delivered_prefix {V : Type} (l₁ l₂ : List (Event V)) (h : l₁ <+: l₂) : delivered l₁ <+: delivered l₂ := by
+  induction l₁ generalizing l₂ with
+  | nil => simp [delivered]
+  | cons x l₁ ih =>
+    cases l₂ with
+    | nil => simp at h
+    | cons y l₂ =>
+      obtain ⟨rfl, h'⟩ := List.cons_prefix_cons.mp h
+      cases x with
+      | deliver v => simp only [delivered]; exact List.cons_prefix_cons.mpr ⟨rfl, ih l₂ h'⟩
+      | refused e => simp only [delivered]; exact ih l₂ h'
+      | closed e => simp only [delivered]; exact ih l₂ h'
+
+theorem delivered_append_closed {V : Type} (l : List (Event V)) (e : RecvErr) :
+    delivered (l ++ [.closed e]) = delivered l := by
+  induction l with
+  | nil => simp [delivered]
+  | cons x l ih => cases x <;> simp [delivered, ih]
+
+/-- **a connection cut anywhere** (the peer closes, crashes, is disconnected — after any number of bytes
+of any stream): the loop with its default fuel does, up to its final close, a prefix of what it does on
+the uncut stream, and the values dispatched are a prefix of the values dispatched from the uncut stream:
+in sending order, none twice, none invented. -/
+theorem c03_cut_anywhere {V : Type} (cd : Codec V) (max : Nat) (c d : Segs) (k : Nat)
+    (h : d.flatten = c.flatten.take k) :
+    (recvAll cd max d).dropLast <+: recvAll cd max c ∧
+    delivered (recvAll cd max d) <+: delivered (recvAll cd max c) := by
+  have hlen : inflight d ≤ inflight c := by
+    unfold inflight; rw [h, List.length_take]; omega
+  have e1 : recvAll cd max c = specLoop cd max (inflight c + 1) c.flatten := by
+    unfold recvAll; rw [c03_loop_refines_parser]
+  have e2 : recvAll cd max d = specLoop cd max (inflight c + 1) (c.flatten.take k) := by
+    unfold recvAll
+    rw [c03_loop_refines_parser, h]
+    have : inflight c + 1 = (inflight d + 1) + (inflight c - inflight d) := by omega
+    have hl : (c.flatten.take k).length = inflight d := by unfold inflight; rw [h]
+    rw [this, specLoop_fuel cd max (inflight d + 1) _ _ (by omega)]
+  have hp : (recvAll cd max d).dropLast <+: recvAll cd max c := by
+    rw [e1, e2]; exact specLoop_take cd max _ _ k
+  refine ⟨hp, ?_⟩
+  obtain ⟨evs, e, hd, _, _⟩ := c03_garbage_total cd max d
+  have : delivered (recvAll cd max d) = delivered (recvAll cd max d).dropLast := by
+    rw [hd, delivered_append_closed]; simp
+  rw [this]
+  exact delivered_prefix _ _ hp
+
+/-- the theorem is about streams that are *not* well-formed too: garbage, cut inside the garbage -/
+example : recvAll (Drv.tableCodec [] []) 100 [[0, 0, 0, 2, 7, 7, 0, 0, 0, 1, 9, 0, 0]] =
+    [.refused .short, .refused .short, .closed .eof] ∧
+    recvAll (Drv.tableCodec [] []) 100 [[0, 0, 0, 2, 7, 7, 0, 0], [0]] = [.refused .short, .closed .eof] := by
+  constructor <;> rfl
+
 /-! ### the code regions the model stands for
 Regenerated from /repo's source on every run (`harness/cmd/astfacts` → `OnetVerif/Shapes.lean`): the
 calls that matter for synchronisation and data flow, the lock regions and (for decision logic) the
